@@ -574,7 +574,10 @@ func init() {
 				}
 			}
 		}
-		o := r.build(top.ID, "build", nil, "", "fresh process after the two collections")
+		// ... and a collection the way `dawn gc` does it -- a fresh process that loads through the INDEX the long-lived
+		// process left behind: the index must list the labels that exist since the Reload
+		r.gc(true)
+		o := r.build(top.ID, "build", nil, "", "fresh process after the collections")
 		if o.Kind == "build" && o.OK && len(o.Ran) != 0 {
 			r.oracle("C14 a collection changed what the next build executes: %v ran although nothing changed", o.Ran)
 		}
